@@ -465,6 +465,12 @@ void HttpRequest::read()
 	_proto = _command.substring(j + 1).trim();
 
 	readHeaders();
+
+	if (_socket->handle() < 0) // a line that is not a header: readHeaders() dropped the connection, so there is no request
+	{
+		_method = "";
+		return;
+	}
 	
 	if (header("Expect") == "100-continue")
 	{
